@@ -309,6 +309,33 @@ def _norm2(s):
     m = tn.max(a) if a.numel() > 0 else tn.zeros([], dtype = a.dtype, device = a.device)
     return m*tn.linalg.norm(a/m) if m > 0 else m
 
+def _unit_cores(cores):
+    """
+    The cores divided by powers of two so that their largest entries have size ~1, and the factors.
+    The iterative product / solution routines square the data in their norms; they are run on such cores (their results are
+    (multi)linear in the operands) and the factors are put back afterwards.
+    """
+    factors = []
+    for c in cores:
+        m = float(tn.max(tn.abs(c))) if c.numel() > 0 else 0.0
+        factors.append(2.0**np.floor(np.log2(m)) if (m > 0 and np.isfinite(m)) else 1.0)
+    return [c / f for c, f in zip(cores, factors)], factors
+
+def _scaled_guess(cores, factors):
+    """
+    An initial guess expressed in the scaled variables (cores divided by the factors); where that is not safely
+    representable the core is normalised instead (the guess then only gives a direction).
+    """
+    lim = float(tn.finfo(cores[0].dtype).max)**0.25 if len(cores) > 0 and (cores[0].is_floating_point() or cores[0].is_complex()) else 1e30
+    out = []
+    for c0, f in zip(cores, factors):
+        c = c0 / f if (np.isfinite(f) and f > 0) else c0
+        m = float(tn.max(tn.abs(c))) if c.numel() > 0 else 0.0
+        if not np.isfinite(m) or (m > 0 and not (1 / lim < m < lim)):
+            c = _unit_cores([c0])[0][0]
+        out.append(c)
+    return out
+
 def rank_chop(s,eps):
     """
     Chop the rank.
